@@ -569,12 +569,15 @@ pub(crate) fn verify_requested_restrictions(
                 map
             } else if let Some(names) = info.names.as_ref() {
                 let mut map: HashMap<String, Option<String>> = HashMap::new();
-                let attrs = requested_proof
-                    .revealed_attr_groups
-                    .get(referent)
-                    .ok_or_else(|| err_msg!("Proof does not have referent from proof request"))?;
+                let attrs = requested_proof.revealed_attr_groups.get(referent);
+                // an attribute group which the holder did not reveal has no values to compare
+                if attrs.is_none() && !requested_proof.unrevealed_attrs.contains_key(referent) {
+                    return Err(err_msg!("Proof does not have referent from proof request"));
+                }
                 for name in names {
-                    let val = attrs.values.get(name).map(|attr| attr.raw.clone());
+                    let val = attrs
+                        .and_then(|attrs| attrs.values.get(name))
+                        .map(|attr| attr.raw.clone());
                     map.insert(name.clone(), val);
                 }
                 map
